@@ -185,7 +185,14 @@ def run_case(case, ctx):
             exact = ca[:, None] * A * eb[:, None] + sa[:, None] * eb[:, None] * B
         try:
             with np.errstate(all='ignore'):
-                J, info = nd.Jacobian(f, **kw)([int(v) for v in x] if int_x else x.astype(np.float32) if f32_x else _as_given(x, case, ctx))
+                x_arg = [int(v) for v in x] if int_x else x.astype(np.float32) if f32_x else _as_given(x, case, ctx)
+                x_then = np.array(x_arg, copy=True) if isinstance(x_arg, np.ndarray) else None
+                J, info = nd.Jacobian(f, **kw)(x_arg)
+                if x_then is not None:
+                    ctx.count('callers_array_unchanged_asserted')
+                    if x_arg.tobytes() != x_then.tobytes():
+                        ctx.reject('callers_array_modified', observed=x_arg, expected=x_then, kind=kind, method=method)
+                        return
         except Exception as exc:
             ctx.reject('jacobian_raised', observed='%s: %s' % (type(exc).__name__, str(exc)[:150]),
                        kind=kind, m=m, n=n, method=method, length_one_output=bool(m == 1))
@@ -294,7 +301,14 @@ def run_case(case, ctx):
                 xin = _laid_out(x.reshape(2, n // 2), case, ctx)
             try:
                 with np.errstate(all='ignore'):
-                    g, ginfo = nd.Gradient(f, **kw)(_as_given(xin, case, ctx))
+                    x_arg = _as_given(xin, case, ctx)
+                    x_then = np.array(x_arg, copy=True) if isinstance(x_arg, np.ndarray) else None
+                    g, ginfo = nd.Gradient(f, **kw)(x_arg)
+                    if x_then is not None:
+                        ctx.count('callers_array_unchanged_asserted')
+                        if x_arg.tobytes() != x_then.tobytes():
+                            ctx.reject('callers_array_modified', observed=x_arg, expected=x_then, kind=kind, method=method)
+                            return
                     Jr, jinfo = nd.Jacobian(f, **kw)(x.copy())
             except Exception as exc:
                 ctx.reject('gradient_raised', observed='%s: %s' % (type(exc).__name__, str(exc)[:150]), method=method, n=n)
